@@ -1,80 +1,35 @@
-//! Probe worker: thin adapters around ruma's public entry points.
-//!
-//! Protocol: one JSON object per line on stdin (`{"id":N,"op":"..",...}`), one reply per line on
-//! stdout: `{"id":N,"ok":..}` | `{"id":N,"err":".."}` | `{"id":N,"panic":"..","at":"file:line:col"}`.
-//! No oracle logic lives here: every op returns what ruma returned.
-//!
-//! `probe --in cmds.jsonl --out replies.jsonl` runs a recorded command file (used under Miri,
-//! valgrind and for replays).
-
-use std::{
-    cell::RefCell,
-    io::{BufRead, BufReader, BufWriter, Write},
-    panic::{catch_unwind, AssertUnwindSafe},
-};
+//! Probe worker (core): thin adapters around ruma's public entry points. See proto.rs for the
+//! protocol. No oracle logic lives here: every op returns what ruma returned.
 
 use serde_json::{json, Value};
 
 mod ops_auth;
+mod ops_enums;
+mod ops_events;
 mod ops_html;
 mod ops_ids;
 mod ops_json;
 mod ops_push;
 mod ops_stateres;
-mod ops_events;
-mod ops_enums;
-mod ops_api;
+mod proto;
 
-thread_local! {
-    static LAST_PANIC_AT: RefCell<String> = const { RefCell::new(String::new()) };
-}
-
-pub type OpResult = Result<Value, String>;
-
-pub fn s<'a>(cmd: &'a Value, key: &str) -> Result<&'a str, String> {
-    cmd.get(key).and_then(Value::as_str).ok_or_else(|| format!("harness: missing string arg {key:?}"))
-}
-
-pub fn opt_s<'a>(cmd: &'a Value, key: &str) -> Option<&'a str> {
-    cmd.get(key).and_then(Value::as_str)
-}
-
-pub fn u(cmd: &Value, key: &str) -> Result<u64, String> {
-    cmd.get(key).and_then(Value::as_u64).ok_or_else(|| format!("harness: missing uint arg {key:?}"))
-}
-
-pub fn b(cmd: &Value, key: &str) -> bool {
-    cmd.get(key).and_then(Value::as_bool).unwrap_or(false)
-}
+pub use proto::{b, opt_s, s, u, OpResult};
 
 fn dispatch(cmd: &Value) -> OpResult {
     let op = s(cmd, "op")?;
-    if let Some(r) = ops_json::dispatch(op, cmd) {
-        return r;
-    }
-    if let Some(r) = ops_ids::dispatch(op, cmd) {
-        return r;
-    }
-    if let Some(r) = ops_push::dispatch(op, cmd) {
-        return r;
-    }
-    if let Some(r) = ops_html::dispatch(op, cmd) {
-        return r;
-    }
-    if let Some(r) = ops_auth::dispatch(op, cmd) {
-        return r;
-    }
-    if let Some(r) = ops_stateres::dispatch(op, cmd) {
-        return r;
-    }
-    if let Some(r) = ops_events::dispatch(op, cmd) {
-        return r;
-    }
-    if let Some(r) = ops_enums::dispatch(op, cmd) {
-        return r;
-    }
-    if let Some(r) = ops_api::dispatch(op, cmd) {
-        return r;
+    for d in [
+        ops_json::dispatch,
+        ops_ids::dispatch,
+        ops_push::dispatch,
+        ops_html::dispatch,
+        ops_auth::dispatch,
+        ops_stateres::dispatch,
+        ops_events::dispatch,
+        ops_enums::dispatch,
+    ] {
+        if let Some(r) = d(op, cmd) {
+            return r;
+        }
     }
     match op {
         "ping" => Ok(json!("pong")),
@@ -88,104 +43,6 @@ fn dispatch(cmd: &Value) -> OpResult {
     }
 }
 
-fn handle_line(line: &str) -> Value {
-    let cmd: Value = match serde_json::from_str(line) {
-        Ok(v) => v,
-        Err(e) => return json!({"id": null, "harness_error": format!("bad command: {e}")}),
-    };
-    let id = cmd.get("id").cloned().unwrap_or(Value::Null);
-    LAST_PANIC_AT.with(|l| l.borrow_mut().clear());
-    match catch_unwind(AssertUnwindSafe(|| dispatch(&cmd))) {
-        Ok(Ok(v)) => json!({"id": id, "ok": v}),
-        Ok(Err(e)) => {
-            if let Some(h) = e.strip_prefix("harness: ") {
-                json!({"id": id, "harness_error": h})
-            } else {
-                json!({"id": id, "err": e})
-            }
-        }
-        Err(payload) => {
-            let msg = if let Some(s) = payload.downcast_ref::<&str>() {
-                (*s).to_owned()
-            } else if let Some(s) = payload.downcast_ref::<String>() {
-                s.clone()
-            } else {
-                "non-string panic payload".to_owned()
-            };
-            let at = LAST_PANIC_AT.with(|l| l.borrow().clone());
-            json!({"id": id, "panic": msg, "at": at})
-        }
-    }
-}
-
-fn run(input: Box<dyn BufRead + Send>, output: Box<dyn Write + Send>) {
-    let mut out = BufWriter::new(output);
-    for line in input.lines() {
-        let Ok(line) = line else { break };
-        if line.trim().is_empty() {
-            continue;
-        }
-        if line.trim() == "FLUSH" {
-            let _ = out.flush();
-            continue;
-        }
-        let reply = handle_line(&line);
-        let _ = serde_json::to_writer(&mut out, &reply);
-        let _ = out.write_all(b"\n");
-        // Flush after every reply: when an op aborts the process, every earlier reply has
-        // already reached the supervisor, so the death is attributed to the right command.
-        let _ = out.flush();
-    }
-    let _ = out.flush();
-}
-
 fn main() {
-    std::panic::set_hook(Box::new(|info| {
-        let at = info
-            .location()
-            .map(|l| format!("{}:{}:{}", l.file(), l.line(), l.column()))
-            .unwrap_or_default();
-        LAST_PANIC_AT.with(|l| *l.borrow_mut() = at);
-    }));
-
-    let args: Vec<String> = std::env::args().collect();
-    let mut in_path = None;
-    let mut out_path = None;
-    let mut stack_kib: usize = 2048;
-    let mut i = 1;
-    while i < args.len() {
-        match args[i].as_str() {
-            "--in" => {
-                in_path = args.get(i + 1).cloned();
-                i += 1;
-            }
-            "--out" => {
-                out_path = args.get(i + 1).cloned();
-                i += 1;
-            }
-            "--stack-kib" => {
-                stack_kib = args.get(i + 1).and_then(|s| s.parse().ok()).unwrap_or(2048);
-                i += 1;
-            }
-            _ => {}
-        }
-        i += 1;
-    }
-
-    let input: Box<dyn BufRead + Send> = match in_path {
-        Some(p) => Box::new(BufReader::new(std::fs::File::open(p).expect("open --in"))),
-        None => Box::new(BufReader::new(std::io::stdin())),
-    };
-    let output: Box<dyn Write + Send> = match out_path {
-        Some(p) => Box::new(std::fs::File::create(p).expect("create --out")),
-        None => Box::new(std::io::stdout()),
-    };
-
-    // All ops run on a thread with a 2 MiB stack: Rust's default for spawned threads, i.e. what a
-    // homeserver's or client's worker thread has.
-    let h = std::thread::Builder::new()
-        .stack_size(stack_kib * 1024)
-        .spawn(move || run(input, output))
-        .expect("spawn");
-    let _ = h.join();
+    proto::run_main(dispatch);
 }
